@@ -28,6 +28,15 @@ def make_pool(seed, n):
                                                  Dm('100.00'), 100]):
         for v in group:
             ops.append({'op': 'encode_table', 'v': {'k': v, 'a': [v]}})
+    # tables whose result could follow a hash order: names that collide once
+    # truncated to 128 characters, many names, sets-of-names shaped data
+    stem = 'k' * 128
+    for tbl in ({stem + 'A': 1, stem + 'B': 2, stem + 'C': [3]},
+                {stem + 'zz': 'x', stem: 'y', 'a': {stem + 'q': 1,
+                                                    stem + 'r': 2}},
+                {'n%03d' % i: i for i in range(40)},
+                {c * 130: ord(c) for c in 'abcdefgh'}):
+        ops.append({'op': 'encode_table', 'v': tbl, 'fresh_always': True})
     # deep values (nesting 24..32), encoded and decoded
     for depth in (24, 28, 32):
         deep = {'d': gv.deep_chain(rnd, depth - 1)}
